@@ -1078,3 +1078,13 @@ pub fn write_canonical(v: &V) -> String {
 pub fn _city(full: &str) -> String {
     city_of(full)
 }
+
+/// all spellings of v with <= bound deviations (at most cap of them)
+pub fn spellings(v: &V, bound: usize, cap: u64) -> Vec<String> {
+    let mut out = vec![];
+    crate::engine::choice::explore(Some(bound), cap, |ch| {
+        out.push(write(v, ch).0);
+        true
+    });
+    out
+}
